@@ -24,9 +24,16 @@ McCellOk(P, o, r, c, k) ==
 McBadCells(P, o) == {x \in Pix(P) \X (1..Len(o.cv[1][1])) : ~McCellOk(P, o, x[1][1], x[1][2], x[2])}
 McBadFlags(P, o) == {x \in Pix(P) : ~(WellFormedFlag(o.vm[x[1]][x[2]]) /\ Bits(o.vm[x[1]][x[2]]) = MatchingBits(P, x[1], x[2]))}
 McNd(P) == P.s * (P.gmax - P.gmin) + 1
+\* the reported maximal cost: census win^2, zncc 1; sad / ssd the largest cost the radiometric range of the selected
+\* band allows, (largest left-right difference)^(1 or 2) * win^2, truncated to an integer (radiometry is in 1/iq units)
+BandValues(img, b) == {img[b][r][c] : r \in 1..Len(img[b]), c \in 1..Len(img[b][1])}
+MaxDiff(P) == LET l == BandValues(P.L, P.band)  r == BandValues(P.R, P.band)
+                  a == Abs(Max(l) - Min(r))  b == Abs(Max(r) - Min(l))
+              IN IF a > b THEN a ELSE b
 McCmax(P) == CASE P.measure = "census" -> P.win * P.win
                [] P.measure = "zncc" -> 1
-               [] OTHER -> -1           \* sad / ssd: depends on the radiometric range, not claimed
+               [] P.measure = "sad" -> (MaxDiff(P) * P.win * P.win) \div P.iq
+               [] OTHER -> (MaxDiff(P) * MaxDiff(P) * P.win * P.win) \div (P.iq * P.iq)
 
 McVerdict(e) ==
    LET P == e.P  o == e.out
